@@ -268,7 +268,7 @@ func (g *routerGen) badRegexParam(name string) *Sx {
 	return T("p", X(name), T("re", X(src)))
 }
 
-var bindNames = []string{"x", "y", "z", "a", "b", "id", "n"}
+var bindNames = []string{"x", "y", "z", "a", "b", "id", "n", "route"} // "route" is reserved: the framework overwrites it
 
 // one segment's elements; kind: 0 static 1 placeholder 2 regex 3 all
 func (g *routerGen) segment(opt bool, kindBias int) *Sx {
@@ -650,6 +650,8 @@ func (rr *routerRun) register(idx int, ms *Sx, r *Sx) (ok bool) {
 			ps = append(ps, T("p", X(k), X(params[k])))
 		}
 		rr.hit = T("found", append([]*Sx{I(idx)}, ps...)...)
+		// what a handler writes into its parameter map must not be seen by any other request
+		params["~stain"] = "1"
 	}
 	var rt *flamego.Route
 	if ms.Tag() == "any" {
